@@ -236,6 +236,12 @@ func checkC01(c *Ctx) {
 		c.R.Floor("J2.order", 3)
 		c.R.Floor("J3.tail", 1)
 	}
+	// parsing keeps nothing in package-level memory between calls
+	c.rulePureAs("E.state", []string{"authenticode.Parse"})
+	c.R.Floor("E.state", 1)
+	c.ruleRecycle("P.recycle", func(f *ssa.Function) bool {
+		return strings.Contains(name(f), "authenticode.") || strings.Contains(name(f), "pkcs7.")
+	})
 }
 
 // headerRanges (J1): per optional-header type the three hashed header ranges.
